@@ -301,7 +301,7 @@ func (muxStream) Class(c Case, impl string) (string, bool) {
 			nontrivial = true
 		}
 	}
-	return c.Kind + "/" + strings.Fields(impl+" -")[0], nontrivial
+	return c.Kind + "/" + strings.Fields(impl + " -")[0], nontrivial
 }
 
 // liveRefusal checks on a live server that a go-ldap client call completes (does not hang)
